@@ -1,5 +1,6 @@
 import Drv.Pure
 import Drv.Stat
+import Drv.Walk
 open Lean Drv
 
 /-- which repairs (`fix:` commits) the model follows; the driver always runs the repaired model,
@@ -11,6 +12,7 @@ def handle (j : Json) : Except String Json := do
   | "pathfn" => hPathFn j
   | "validate" => hValidate j
   | "diff" => hDiff j
+  | "walk" => hWalk j
   | _ => throw s!"bad-op {op}"
 
 partial def loop (h : IO.FS.Stream) (out : IO.FS.Stream) : IO Unit := do
